@@ -102,7 +102,7 @@ func (s *State) ExpandMacros(program ast.Node) ast.Node {
 			return s.MacroErrorf("wrong number of macro arguments, want=%d, got=%d", len(macro.Parameters), len(args))
 		}
 
-		evalEnv := extendMacroEnv(macro, args)
+		evalEnv := s.extendMacroEnv(macro, args)
 
 		evaluated := evalEnv.Eval(macro.Body)
 
@@ -126,12 +126,24 @@ func quoteArgs(exp *ast.CallExpression) []object.Quote {
 	return args
 }
 
-func extendMacroEnv(macro *object.Macro, args []object.Quote) *State {
+// Returns a fully usable state (same limits, output, extensions as the caller's) whose
+// environment has the macro parameters bound to the quoted arguments.
+func (s *State) extendMacroEnv(macro *object.Macro, args []object.Quote) *State {
 	extended := object.NewEnclosedEnvironment(macro.Env)
 
 	for paramIdx, param := range macro.Parameters {
 		extended.Set(param.Value().Literal(), args[paramIdx])
 	}
-
-	return &State{env: extended}
+	res := NewBlankState()
+	res.env = extended
+	res.rootEnv = extended
+	res.macroState = s.macroState
+	res.Out = s.Out
+	res.LogOut = s.LogOut
+	res.NoLog = s.NoLog
+	res.Extensions = s.Extensions
+	res.MaxDepth = s.MaxDepth
+	res.Context = s.Context
+	res.NoReg = s.NoReg
+	return res
 }
